@@ -245,10 +245,18 @@ func VerifDigest(a *Agent) VerifAgentDigest {
 		Links: len(a.Pivots.Links), Parent: a.Pivots.Parent, PortFwds: len(a.PortFwds), SocksCli: len(a.SocksCli), SocksSvr: len(a.SocksSvr)}
 }
 
-// (*Agent).ToMap goes through github.com/fatih/structs (reflection), which gosx does not
-// encode; its result only feeds JSON for operators / the third-party service.
+// (*Agent).ToMap converts the struct with github.com/fatih/structs (reflection over the
+// whole Agent, with its mutexes and connections), which gosx does not encode: structs.Map is
+// modelled by the keys ToMap itself touches, so that the real ToMap - which detaches and
+// re-attaches the parent around the conversion - runs. The map only feeds JSON for operators,
+// webhooks and the third-party service.
 //
-//verif:stub (*Havoc/pkg/agent.Agent).ToMap
-func verifStubToMap(a *Agent) map[string]interface{} {
-	return map[string]interface{}{"NameID": a.NameID, "Active": a.Active}
+//verif:stub github.com/fatih/structs.Map
+func verifStubStructsMap(s interface{}) map[string]interface{} {
+	m := map[string]interface{}{"Info": map[string]interface{}{}, "Connection": nil, "SessionDir": "", "JobQueue": nil}
+	if a, ok := s.(*Agent); ok {
+		m["NameID"] = a.NameID
+		m["Active"] = a.Active
+	}
+	return m
 }
